@@ -266,6 +266,15 @@ fn gate_case(c: &(u64, Vec<Setter>, u8), obs: &mut Obs) -> CaseResult {
         }
     }
     ensure_eq!(idt[v as u8].handler_addr().as_u64(), *addr, "handler_addr() unchanged by option setters");
+    // giving the entry a handler address again resets every option to the documented defaults
+    // (present, interrupt gate, ring 0, no stack switch, current code segment)
+    let addr2 = addr ^ 0x0000_0000_00ff_f000;
+    {
+        let e: &mut Entry<HandlerFunc> = &mut idt[v as u8];
+        unsafe { e.set_handler_addr(VirtAddr::new(addr2)) };
+    }
+    let fresh = Gate { offset: addr2, selector: cs, ist: 0, zero1: 0, typ: 0xE, zero2: 0, dpl: 0, present: true, reserved: 0 };
+    ensure_eq!(decode(&raw_entry(&idt[v as u8])), fresh, "set_handler_addr({:#x}) on an entry whose options had been changed by {:?}", addr2, prog);
     // all other entries untouched
     let bytes = unsafe { &*(&*idt as *const _ as *const [[u8; 16]; 256]) };
     for k in 0..256 {
